@@ -593,7 +593,8 @@ func runC07(r *Run) {
 				}
 			}
 		}
-		r.need(len(cut) >= 1, "methodInt tests whether a method list was configured")
+		// (no such test at all: every constant position below is answered whatever the configuration — reported as that)
+		r.count("`no list configured` edges in methodInt", len(cut))
 		constPos := func(in ssa.Instruction) bool {
 			ret, ok := in.(*ssa.Return)
 			if !ok || ret.Parent() != f || len(ret.Results) != 1 {
@@ -609,6 +610,67 @@ func runC07(r *Run) {
 
 	r.rule("R10", "two interface values are compared with == only where one operand is known to hold a comparable dynamic type: otherwise equal uncomparable dynamic types (maps, slices) panic at run time (every function of the module; E3)", func() { interfaceComparisonRule(r) })
 	r.rule("R9", "a constant-index access x[c] on a byte sequence is reachable only through an edge on which len(x) > c (every function of the module; E1)", func() { constIndexRule(r) })
+	r.rule("R13", "a view that points back into the context is bound to the context that hands it out: for every field of DefaultCtx whose type carries a *DefaultCtx back-pointer (the Req()/Res() views, Bind, Redirect), some method of DefaultCtx stores it on its own receiver — a view bound only where the context is constructed points at the original when the context is embedded by value in a custom context, the documented way to build one, and every call through it dereferences a context that never saw a request (E4, who-may-write)", func() {
+		ctxNamed, st := r.P.Struct("", "DefaultCtx")
+		r.need(ctxNamed != nil && st != nil, "type DefaultCtx is a struct")
+		ctxObj := ctxNamed.Obj()
+		views := map[string]bool{}
+		for i := 0; i < st.NumFields(); i++ {
+			fld := st.Field(i)
+			pt, ok := fld.Type().(*types.Pointer)
+			if !ok {
+				continue
+			}
+			vs, ok := pt.Elem().Underlying().(*types.Struct)
+			if !ok {
+				continue
+			}
+			for j := 0; j < vs.NumFields(); j++ {
+				if bp, ok := vs.Field(j).Type().(*types.Pointer); ok && types.Identical(bp.Elem(), ctxObj.Type()) {
+					views["DefaultCtx."+fld.Name()] = true
+				}
+			}
+		}
+		r.atLeast("view fields with a back-pointer", len(views), 2)
+		byReceiver, elsewhere := map[string]string{}, map[string]string{}
+		r.P.AllFuncs("", func(f *ssa.Function) {
+			for _, fr := range fieldRefsOne(f) {
+				if !fr.Write || !views[fr.Name] || fr.Val == nil || constIsNil(asConst(fr.Val)) {
+					continue
+				}
+				onReceiver := false
+				if f.Signature.Recv() != nil && len(f.Params) > 0 && fr.Addr != nil {
+					if base := stripValue(fr.Addr.X); base == ssa.Value(f.Params[0]) {
+						onReceiver = true
+					} else if ld, ok := base.(*ssa.UnOp); ok && ld.Op == token.MUL {
+						// the receiver spilled into a cell (it is captured or its address is taken)
+						if al, ok := ld.X.(*ssa.Alloc); ok {
+							for _, s2 := range storesInto(al) {
+								if s2.Val == ssa.Value(f.Params[0]) {
+									onReceiver = true
+								}
+							}
+						}
+					}
+				}
+				if onReceiver {
+					byReceiver[fr.Name] = r.pos(fr.Instr)
+				} else {
+					elsewhere[fr.Name] = r.pos(fr.Instr)
+				}
+			}
+		})
+		for _, v := range sortedKeys(views) {
+			if _, any := elsewhere[v]; !any && byReceiver[v] == "" {
+				continue // never assigned a view at all
+			}
+			r.check(byReceiver[v] != "", v+":bound-by-its-context", byReceiver[v]+elsewhere[v], "a method of DefaultCtx binds the view to its receiver",
+				"the view "+v+" is bound only where the context is constructed ("+elsewhere[v]+"): `&CustomCtx{DefaultCtx: *fiber.NewDefaultCtx(app)}` copies the context, the view keeps pointing at the original, whose request is nil — c.Req().Get(…) / c.Res().Set(…) in a handler is a nil dereference, and fasthttp does not recover")
+		}
+	})
+	r.rule("R12", "a cut at a position taken from elsewhere is bounded on the value that is cut: where a function compares such a position with the length of some sequence ahead of the cut, it is the length of the sequence it cuts (contradiction rule over every function of the module)", func() {
+		sliceBoundOnItsOwnValueRule(r, "*")
+	})
 	r.rule("R6", "offset accesses are not evaluated ahead of the guard that bounds them (contradiction rule over every function of the module)", func() { offsetGuardRule(r) })
 
 	if r.Tier == "thorough" {
